@@ -27,6 +27,8 @@ func (w *World) registerMoreIntrinsics() {
 	w.registerFileIntrinsics()
 	w.registerSessionCodecIntrinsics()
 	w.registerSortQueryIntrinsics()
+	w.registerJSONIntrinsics()
+	w.registerEndpointIntrinsics()
 	terms := func(e *Exec, v Value) []*Term {
 		var ts []*Term
 		for _, x := range e.sliceElems(v.(*SliceVal)) {
